@@ -1,4 +1,5 @@
 import GramModel.Check
+import GramModel.Lemmas.StoreCtx
 
 /-!
 # C18 — checking under a context matches the closed program; contexts are restored
@@ -11,17 +12,26 @@ restoration is an invariant over every arm (including the failing ones), not a t
 def C18_whnf_restores_stmt : Prop :=
   ∀ (fuel : Nat) (t r : Tm) (s s' : St), whnfS fuel t s = .ok r s' →
     s'.tctx = s.tctx ∧ s'.dctx = s.dctx
+theorem C18_whnf_restores : C18_whnf_restores_stmt := by
+  intro fuel t r s s' h
+  exact CtxH.restores (whnfS_ctx fuel t) h
 
 /-- `unify` leaves both contexts exactly as they were, whether it succeeds or fails. -/
 def C18_unify_restores_stmt : Prop :=
   ∀ (fuel : Nat) (a b : Tm) (res : Bool) (s s' : St), unifyS fuel a b s = .ok res s' →
     s'.tctx = s.tctx ∧ s'.dctx = s.dctx
+theorem C18_unify_restores : C18_unify_restores_stmt := by
+  intro fuel a b res s s' h
+  exact CtxH.restores (unifyS_ctx fuel a b) h
 
 /-- `type_check` leaves both contexts exactly as they were, accepted or rejected (any number of
 diagnostics), on every path including rejection part-way through a nested scope. -/
 def C18_infer_restores_stmt : Prop :=
   ∀ (fuel : Nat) (t e ty : Tm) (s s' : St), inferS fuel t s = .ok (e, ty) s' →
     s'.tctx = s.tctx ∧ s'.dctx = s.dctx
+theorem C18_infer_restores : C18_infer_restores_stmt := by
+  intro fuel t e ty s s' h
+  exact CtxH.restores (inferS_ctx fuel t) h
 
 /-- The two contexts always have the same length inside the checker if they had on entry
 (pushes and pops are paired). -/
